@@ -7,6 +7,7 @@
 //!       -> ok <n> <idx>* <lost|kept> <start'> <next'> <m> <idx>* <lost|kept> <start'> <next'> | rt=<0|1>
 //!       (`idx*` = order of the probe's records after `insert_record`, as indices into the input)
 //!   probe-time <start> <now>                   -> ok <next_send> <expired 0|1> <next_send after update>
+//!   probe-run <start> <n> <t1> .. <tn>         -> ok <s<t>|e<t>,..|-> <start_time> <next_send>   (due -> expired? end : send)
 //!   name-change <hex> | hostname-change <hex>  -> ok <hex> | panic
 //!   check-name <len <limit>|suffix|service|hostname|instance> <hex>  -> ok | err | panic
 //!   split-sub <hex>                            -> ok <hex> <none | some <hex>>
@@ -141,6 +142,38 @@ pub fn exec(op: &str, t: &mut Toks) -> Option<String> {
                     None => "panic".to_string(),
                     Some(None) => return None,
                     Some(Some((first, expired, next))) => format!("ok {} {} {}", first, b(expired), next),
+                },
+            )
+        }
+        "probe-run" => {
+            // the per-probe loop of check_probing over the given instants: due -> expired? end : send
+            let start = t.nat()?;
+            let n = t.nat()?;
+            let mut times = Vec::new();
+            for _ in 0..n {
+                times.push(t.nat()?);
+            }
+            Some(
+                match guarded(move || {
+                    let mut p = info::ProbeHandle::new(start, &[])?;
+                    let mut acts: Vec<String> = Vec::new();
+                    for now in times {
+                        if now >= p.times().1 {
+                            if p.expired(now) {
+                                acts.push(format!("e{}", now));
+                                break;
+                            }
+                            p.update_next_send(now);
+                            acts.push(format!("s{}", now));
+                        }
+                    }
+                    Some((acts, p.times()))
+                }) {
+                    None => "panic".to_string(),
+                    Some(None) => return None,
+                    Some(Some((acts, (st, nx)))) => {
+                        format!("ok {} {} {}", if acts.is_empty() { "-".to_string() } else { acts.join(",") }, st, nx)
+                    }
                 },
             )
         }
@@ -544,6 +577,36 @@ pub fn generate(r: &mut Rng, tier: &str, emit: &mut dyn FnMut(String)) {
             emit(format!("probe-time {} {}", start, start + d));
         }
         emit(format!("probe-time {} {}", start, start.saturating_sub(1)));
+    }
+    // 4b. the send / end loop of a probe over instants: timely, late, in bursts, random
+    for start in [0u64, 1000, 1_700_000_000_000] {
+        let runs: Vec<Vec<u64>> = vec![
+            vec![0, 250, 500, 750],
+            vec![0, 100, 250, 300, 500, 749, 750, 1000],
+            vec![800, 1050, 1300, 1550],
+            vec![800, 801, 802, 803, 1050, 1300, 1550, 1551],
+            vec![0, 1000, 1250, 1500],
+            vec![0, 250, 1500, 1600, 1750],
+            vec![749, 750, 751],
+            vec![5000],
+            vec![5000, 5250, 5500, 5750, 6000],
+            vec![0, 250, 500],
+            vec![0, 249, 498, 747, 996, 1245],
+        ];
+        for run in runs {
+            let toks: Vec<String> = run.iter().map(|d| (start + d).to_string()).collect();
+            emit(format!("probe-run {} {} {}", start, toks.len(), toks.join(" ")));
+        }
+        for _ in 0..40 {
+            let n = r.range(1, 9);
+            let mut tcur = start + r.range(0, 1200);
+            let mut toks = Vec::new();
+            for _ in 0..n {
+                toks.push(tcur.to_string());
+                tcur += *r.pick(&[0u64, 1, 100, 249, 250, 251, 400, 750, 900]);
+            }
+            emit(format!("probe-run {} {} {}", start, toks.len(), toks.join(" ")));
+        }
     }
     // 5. renaming and the name checks
     gen_names(r, emit);
